@@ -1050,6 +1050,9 @@ class tensor:
         if self.ndims < 2:
             assert False, "MTTKRP is invalid for tensors with fewer than 2 dimensions"
 
+        if n not in range(self.ndims):
+            assert False, "n must be a mode of the tensor"
+
         U = get_mttkrp_factors(U, n, self.ndims)
 
         if n == 0:
